@@ -310,6 +310,10 @@ MUTANTS = [
          edits=[E("rustradio_macros/src/lib.rs", "otags.push(#path::stream::Tag::new(pos, tag.key(), tag.val().clone()));", "otags.push(#path::stream::Tag::new(0, tag.key(), tag.val().clone()));", count=2)]),
     dict(name="c12-tag-filter-ge", prop="C12", expect="C12.R2:<add::Add as block::Block>::work:select_eq",
          edits=[E("rustradio_macros/src/lib.rs", ".filter(|t| t.pos() == pos)", ".filter(|t| t.pos() >= pos)")]),
+    dict(name="c12-fir-unrewritten-tags", prop="C12", expect="C12.R3:<fir::FirFilter as block::Block>::work",
+         edits=[E("src/fir.rs", "            tags.iter_mut().for_each(|t| t.set_pos(t.pos() / self.deci));\n", "")]),
+    dict(name="c12-fir-wrong-divisor", prop="C12", expect="C12.R3:<fir::FirFilter as block::Block>::work",
+         edits=[E("src/fir.rs", "tags.iter_mut().for_each(|t| t.set_pos(t.pos() / self.deci));", "tags.iter_mut().for_each(|t| t.set_pos(t.pos() / self.ntaps));")]),
     # ---------------- C13
     dict(name="c13-crc-check-removed", prop="C13", expect="C13.R1:hdlc_deframer::HdlcDeframer::update_state:push",
          edits=[E("src/hdlc_deframer.rs", """                        if crc != got_crc {
